@@ -26,7 +26,23 @@ def insub_cbc(H):
     H.add(F1, "f_m1sqr", cut("f_m1sqr", f_facts), phase=1)
 
 
-TABLE = {"insub_cbc": insub_cbc}
+def insub_cbc_mirror(H):
+    """two calls (phase 1: original, phase 2: mirrored): staged rewrites of the locals of the second call"""
+    from pyvc.hints import rewrite
+    from contracts.flux_hints import _store_only
+
+    def neg(v):
+        return T.neg(v)
+    for var in ("invcm", "adiscri", "a1", "u1", "f_m1sqr"):
+        H.add(F1, var, _store_only(var), phase=1)
+    H.add(F1, "invcm", rewrite("invcm", lambda H_, env, v: neg(H_.store[(1, "invcm")]["real"])), phase=2)
+    H.add(F1, "adiscri", rewrite("adiscri", lambda H_, env, v: H_.store[(1, "adiscri")]["real"]), phase=2)
+    H.add(F1, "a1", rewrite("a1", lambda H_, env, v: H_.store[(1, "a1")]["real"]), phase=2)
+    H.add(F1, "u1", rewrite("u1", lambda H_, env, v: neg(H_.store[(1, "u1")]["real"])), phase=2)
+    H.add(F1, "f_m1sqr", rewrite("f_m1sqr", lambda H_, env, v: H_.store[(1, "f_m1sqr")]["real"]), phase=2)
+
+
+TABLE = {"insub_cbc": insub_cbc, "insub_cbc/mirror": insub_cbc_mirror}
 
 
 def install(interp, name):
